@@ -43,7 +43,10 @@ class C13(Prop):
                 a, b = rng.sample(range(m), 2)
                 base = base + [[row[b] if j == a else row[a] if j == b else row[j] for j in range(m)] for row in base]
             rule = DET[i % 6]
-            yield dict(entry=rule + ".scf", family="random", rule=rule, method="scf", P=base, tb=rng.choice(["random", "first", "accept"]), k=rng.randint(1, m + 1), seed=i)
+            c = dict(entry=rule + ".scf", family="random", rule=rule, method="scf", P=base, tb=rng.choice(["random", "first", "accept"]), k=rng.randint(1, m + 1), seed=i)
+            if i % 4 == 0:
+                c["inplace_first"] = V.rand_profile(rng, len(base), m); c["family"] = "random_history"
+            yield c
         for i in range(30 if tier == "quick" else 300):     # large electorates decided by one vote
             m = rng.randint(2, 4); base = rng.choice([70000, 150000, 300000])
             ballots = [rng.sample(range(1, m + 1), m) for _ in range(rng.randint(2, 4))]
@@ -54,7 +57,10 @@ class C13(Prop):
         for i in range(N):
             n = rng.randint(1, 10); m = rng.randint(2, 7)   # m = 1: Borda/Veto scores sum to zero, outside the rule's domain
             rule = RAND[i % 5]
-            yield dict(entry=rule + ".scf", family="randomized", rule=rule, method="scf", P=V.rand_profile(rng, n, m), tb="random", k=rng.randint(1, m + 1), seed=i)
+            c = dict(entry=rule + ".scf", family="randomized", rule=rule, method="scf", P=V.rand_profile(rng, n, m), tb="random", k=rng.randint(1, m + 1), seed=i)
+            if i % 3 == 0:
+                c["inplace_first"] = V.rand_profile(rng, n, m); c["family"] = "randomized_history"
+            yield c
         N = 60 if tier == "quick" else 1000
         for i in range(N):
             n = rng.randint(1, 6); m = rng.randint(2, 5)
